@@ -199,3 +199,67 @@ class FileEntryNew(Base):
 
     def observe(self, c, a, out):
         return {'kind': out.kind, 'lens': [d.extent_length for d in a.self.alloc_descs] if out.kind == 'return' else None}
+
+
+SYMLINK_SHAPES = {
+    # every sequence of up to three component kinds (empty, '.', '..', a name), joined by '/': doubled, leading and trailing slashes
+    # arise from the empty kind
+}
+_KINDS = {'e': '', 'd': '.', 'p': '..', 'n': 'nm', 'u': '中é'}
+for _a in _KINDS:
+    SYMLINK_SHAPES[_a] = [_a]
+    for _b in _KINDS:
+        SYMLINK_SHAPES[_a + _b] = [_a, _b]
+        for _c in _KINDS:
+            SYMLINK_SHAPES[_a + _b + _c] = [_a, _b, _c]
+SYMLINK_SHAPES.pop('e')        # the empty target is refused by add_symlink itself
+
+
+@contract
+class SymlinkToBytes(Base):
+    """C10/symlink: udf.symlink_to_bytes(target) yields path components (ECMA-167 4/14.16.1) that an independent decoder turns back
+    into the target - a leading slash as the root component, '.' and '..' as such, names in OSTA compressed unicode - where
+    doubled and trailing slashes, which name nothing and cannot be recorded (a component cannot be empty), are left out and never
+    become root components in the middle of the path; a component longer than its one-byte length field is refused with
+    InvalidInput"""
+    target = 'pycdlib.udf.symlink_to_bytes'
+    shape = 'n'
+    longname = 0          # > 0: one name component of that many characters (Latin-1), < 0: of that many characters beyond Latin-1
+
+    def text(self):
+        if self.longname:
+            return 'd/' + ('x' * self.longname if self.longname > 0 else '中' * -self.longname) + '/e'
+        return '/'.join(_KINDS[k] for k in SYMLINK_SHAPES[self.shape])
+
+    def too_long(self):
+        return self.longname > 254 or -self.longname > 127
+
+    def setup(self, c):
+        c.a.t = self.text()
+        return Call([c.a.t])
+
+    def raises(self, c, a):
+        return {'PyCdlibInvalidInput': self.too_long()}
+
+    def expected_covers(self):
+        return ('raise:PyCdlibInvalidInput',) if self.too_long() else ('return',)
+
+    def post(self, c, a, out):
+        from contracts import udf_reader as UR
+        from contracts.fidelity import udf_target_form
+        data = list(V.items_of(out.result))
+        roots = [i for i, (t, ln) in enumerate(self.components(data)) if t in (1, 2)]
+        return {'decodes-to-the-target': UR.symlink_target(data) == udf_target_form(a.t),
+                'root-component-only-in-front': all(i == 0 for i in roots),
+                'components-fit-their-length-byte': all(ln <= 255 for t, ln in self.components(data))}
+
+    @staticmethod
+    def components(data):
+        out, i = [], 0
+        while i < len(data):
+            out.append((data[i], data[i + 1]))
+            i += 4 + data[i + 1]
+        return out
+
+    def observe(self, c, a, out):
+        return {'kind': out.kind, 'exc': out.exc}
